@@ -122,8 +122,8 @@ Proof.
   apply H. intros e He. apply filter_In in He. tauto.
 Qed.
 
-(* ------------------------------------------------------------------ known finding: a designated tail of
-   the LAST list of a .debug_loclists block is not visited by iter_location_lists *)
+(* ------------------------------------------------------------------ repaired finding: a designated tail of
+   the LAST list of a .debug_loclists block was not visited by iter_location_lists *)
 Definition tail_loclists : list Z :=
   enc_unit true {| ub_is64 := false; ub_version := 5; ub_asz := 4; ub_seg := 0; ub_offsets := [];
                    ub_body := enc_lle_list true 4 [LOffsetPair (1, 0%nat) (2, 0%nat) (0%nat, [0x50]); LBaseAddress 0x1000] |}.
@@ -144,7 +144,13 @@ Lemma tail_at_unit_end :
   /\ enum_designated [12; 17] tail_items
      = [lle_meaning true 4 [] 12 [LOffsetPair (1, 0%nat) (2, 0%nat) (0%nat, [0x50]); LBaseAddress 0x1000];
         lle_meaning true 4 [] 17 [LBaseAddress 0x1000]]
-  (* the enumeration visits only the first *)
-  /\ iter_location_lists LLE_TABLES gen_loclists_CU_header gen_locview_pair tail_S 5 tail_loclists tail_cus
+  (* the enumeration before the repair visited only the first *)
+  /\ iter_location_lists_unfixed LLE_TABLES gen_loclists_CU_header gen_locview_pair tail_S 5 tail_loclists tail_cus
      = Ok [lle_meaning true 4 [] 12 [LOffsetPair (1, 0%nat) (2, 0%nat) (0%nat, [0x50]); LBaseAddress 0x1000]].
 Proof. split; [|split]; vm_compute; reflexivity. Qed.
+
+(* the repaired walk visits both *)
+Lemma tail_at_unit_end_fixed :
+  iter_location_lists LLE_TABLES gen_loclists_CU_header gen_locview_pair tail_S 5 tail_loclists tail_cus
+  = Ok (enum_designated [12; 17] tail_items).
+Proof. vm_compute. reflexivity. Qed.
